@@ -19,7 +19,9 @@ import (
 // ---------------------------------------------------------------------------------------
 // name universes
 
-var c17Plain = []string{"User", "Group", "Photo", "Album", "Doc", "Team", "Role", "Org", "Dev", "Acct", "T1", "_x", "a9", "Z_9", "Item", "List"}
+var c17Plain = []string{"User", "Group", "Photo", "Album", "Doc", "Team", "Role", "Org", "Dev", "Acct", "T1", "_x", "a9", "Z_9", "Item", "List",
+	// ordinary identifiers that merely contain a reserved word
+	"Acme__cedar_v2", "__cedar2", "my__cedar", "inx", "iss", "iffy", "truex", "has_", "likeX", "elsewhere", "thenx", "falsey"}
 
 // identifiers that are keywords of the schema grammar (but ordinary identifiers for the lexer)
 var c17Kwish = []string{"entity", "action", "type", "namespace", "enum", "tags", "appliesTo", "principal", "resource", "context", "attributes"}
@@ -35,7 +37,7 @@ var c17Exts = []string{"ipaddr", "decimal", "datetime", "duration"}
 // the schema grammar or the name of a built-in type (all of them ordinary identifiers for the
 // lexer; the pinned parser accepts each as a namespace segment - probed). Reserved Cedar keywords
 // (in, is, if, then, else, like, has, true, false, __cedar) are rejected by the parser and excluded.
-var c17NsPlainSeg = []string{"NS", "A", "B", "C", "App", "Z9", "_x", "M"}
+var c17NsPlainSeg = []string{"NS", "A", "B", "C", "App", "Z9", "_x", "M", "Acme__cedar_v2", "my__cedar", "__cedar2", "inx", "iss"}
 var c17NsKeySeg = func() []string {
 	out := append([]string{"Set", "Set", "Action"}, c17Kwish...)
 	out = append(out, c17EntityOnly...)
@@ -1121,13 +1123,60 @@ func c17Features(s *ast.Schema) []string {
 // c17TextAmbiguous: a common type and an entity type share a fully qualified name, so an
 // EntityTypeRef in type position cannot be expressed in the text format (stated domain restriction).
 func c17TextAmbiguous(s *ast.Schema) bool {
+	// simple names declared both as a common type and as an entity / enum type in one namespace
+	coll := map[string]bool{}
 	for _, nsName := range c17NSNames(s) {
 		n := c17GetNS(s, nsName)
 		for k := range n.CommonTypes {
 			if _, ok := n.Entities[k]; ok {
-				return true
+				coll[string(k)] = true
 			}
 			if _, ok := n.Enums[k]; ok {
+				coll[string(k)] = true
+			}
+		}
+	}
+	if len(coll) == 0 {
+		return false
+	}
+	// The text format writes an entity reference and a common-type reference alike. That only
+	// matters where a type is expected (attribute, element, tags, context, common-type body):
+	// an explicit ENTITY reference there to a colliding name reads back as the common type.
+	// Parent lists, principal / resource lists and action parents only ever name entity types.
+	var hit func(t ast.IsType) bool
+	hit = func(t ast.IsType) bool {
+		switch t := t.(type) {
+		case ast.SetType:
+			return hit(t.Element)
+		case ast.RecordType:
+			for _, a := range t {
+				if hit(a.Type) {
+					return true
+				}
+			}
+		case ast.EntityTypeRef:
+			name := string(t)
+			if i := strings.LastIndex(name, "::"); i >= 0 {
+				name = name[i+2:]
+			}
+			return coll[name]
+		}
+		return false
+	}
+	for _, nsName := range c17NSNames(s) {
+		n := c17GetNS(s, nsName)
+		for _, ct := range n.CommonTypes {
+			if hit(ct.Type) {
+				return true
+			}
+		}
+		for _, e := range n.Entities {
+			if hit(e.Shape) || (e.Tags != nil && hit(e.Tags)) {
+				return true
+			}
+		}
+		for _, a := range n.Actions {
+			if a.AppliesTo != nil && a.AppliesTo.Context != nil && hit(a.AppliesTo.Context) {
 				return true
 			}
 		}
